@@ -19,6 +19,7 @@ from __future__ import annotations
 import inspect, json
 import numpy as np
 from .. import core, iso, catalog, specs
+from . import c10_surf
 
 ID = 'C10'
 LEVEL = 'other'
@@ -499,6 +500,8 @@ def _model2_line_and_direct(case):
         return f"c10 kind=thin rows={q['rows']} cols={q['cols']} img={_csv(q['img'])}", a, done, dict(frame=str(int(frame)))
     if w == 'cwnb':
         return (f"c10 kind=cwnb shape={_csv(q['shape'])} bshape={_csv(q['bshape'])}",) + _py_cwnb(q['shape'], q['bshape']) + ({},)
+    if w in c10_surf.KINDS:          # round 3 (B9 SURF)
+        return c10_surf.line_and_direct(w, q)
     raise core.Infra(f'unknown model2 kind {w}')
 
 
@@ -585,7 +588,7 @@ def evaluate(cases):
     for c in cases:
         k = c.get('kind', 'sweep')
         out.append(_eval_filter(c) if k == 'filter' else _eval_model(c) if k == 'model' else _eval_model2(c) if k == 'model2' else
-                   _eval_zoomshift_real(c) if k == 'zoomshift' else _eval_sweep(c))
+                   _eval_zoomshift_real(c) if k == 'zoomshift' else c10_surf.evaluate_real(c) if k == 'surfreal' else _eval_sweep(c))
     return out
 
 
@@ -758,6 +761,7 @@ def cases(rng, tier):
         # round 2 (appended last so that the random stream of the cases above is unchanged)
         out += _model2_cases(rng, dict(quick=600, thorough=6000, search=0)[tier])
         out += _zoomshift_cases(rng, dict(quick=120, thorough=1500, search=0)[tier])
+        out += c10_surf.cases(rng, tier)       # round 3 (B9 SURF), appended last: the stream above is unchanged
     return out
 
 
